@@ -140,6 +140,8 @@ func exec(op string) (res string) {
 		return execSess(op)
 	case "hist":
 		return execHist(op)
+	case "rsess", "rsessx":
+		return execRetry(op)
 	}
 	return "bad-op"
 }
@@ -533,6 +535,10 @@ func main() {
 	}
 	extra := sessionTier(r, out, tier)
 	for k, v := range histTier(r, out, tier) {
+		extra[k] = v
+	}
+	// the retry tier draws from the PRNG after every other tier, so their scenarios are what they were
+	for k, v := range retryTier(r, out, tier) {
 		extra[k] = v
 	}
 	out.Close(extra)
